@@ -447,11 +447,15 @@ def St.onWorkloadUpdate (s : St) (host id : Nat) (ips : List Nat) : St :=
     if ips.isEmpty then { s with weps := adel s.weps (host, id) }
     else { s with weps := aset s.weps (host, id) ips }
 
-/-- entries visited by `visitAllRoutes`, with the node the Go code attributes to each. -/
+/-- entries visited by `visitAllRoutes`, with the node the Go code attributes to each (the same
+precedence as `flush`: first ref, else the node whose own address it is, else the block's node). -/
 def visitNode (ri : RouteInfo) : Option Nat :=
   match ri.refs with
   | r :: _ => some r.node
-  | [] => ri.block
+  | [] =>
+    match ri.hosts with
+    | h :: _ => some h
+    | [] => ri.block
 
 def addTunnelRefs (s : St) (n : Nat) (i : NodeInfo) : St :=
   let s := if i.ipip != 0 then s.addRef (Cidr.host i.ipip) n refIPIP else s
@@ -569,6 +573,7 @@ structure RM where
   localBlocks : List (Cidr × RouteUpdate) := []   -- localIPAMBlocks
   dirty : Bool := true
   vteps : List (Nat × Nat) := []                  -- vxlan: vtepsByNode ↦ VTEP address
+  localVtep : Bool := false                       -- vxlan: myVTEP != nil
   hostIPs : List (Nat × Nat) := []                -- ipip: activeHostnameToIP
   table : List ((Nat × Nat) × List Target) := []  -- mock route table: (class, iface) ↦ last SetRoutes
 deriving Repr
@@ -643,17 +648,20 @@ def RM.complete (m : RM) : RM :=
 /-- `OnParentDeviceUpdate("eth0")`. -/
 def RM.onParent (m : RM) : RM := if m.parent then m else { m with parent := true, dirty := true }
 
-/-- vxlan manager: VXLANTunnelEndpointUpdate / Remove.  `addr = 0` models the v6-only VTEP
-message that the v4 manager skips. -/
+/-- vxlan manager: VXLANTunnelEndpointUpdate / Remove.  `addr = 0` models the update without an
+IPv4 address (the node has no IPv4 VTEP any more): the v4 manager forgets what it held for the node. -/
 def RM.onVtep (m : RM) (n : Nat) (v : Option (Nat × Nat)) : RM :=
   if m.pt != ptVXLAN then m
   else match v with
     | some (addr, parentIp) =>
-      if addr == 0 then m
-      else if n == m.me then { m with parentAddr := parentIp, dirty := true }
+      if addr == 0 then
+        if n == m.me then
+          if m.localVtep then { m with localVtep := false, parentAddr := 0, dirty := true } else m
+        else if (aget m.vteps n).isSome then { m with vteps := adel m.vteps n, dirty := true } else m
+      else if n == m.me then { m with localVtep := true, parentAddr := parentIp, dirty := true }
       else { m with vteps := aset m.vteps n addr, dirty := true }
     | none =>
-      if n == m.me then { m with parentAddr := 0, dirty := true }
+      if n == m.me then { m with localVtep := false, parentAddr := 0, dirty := true }
       else { m with vteps := adel m.vteps n, dirty := true }
 
 /-- ipip / no-encap manager: HostMetadataUpdate / Remove. -/
